@@ -690,7 +690,7 @@ static void one_case(vh::Ctx & c, uint64_t idx)
 
 int main(int argc, char ** argv)
 {
-  return vh::run(argc, argv, "C02", {20000, 1000000}, one_case, [](vh::Ctx & c) {
+  return vh::run(argc, argv, "C02", {100000, 1000000}, one_case, [](vh::Ctx & c) {
       c.count("loop_hook_calls", vh::loopwatch().calls);
     });
 }
